@@ -123,6 +123,46 @@ def run(pid, tier, seed, rundir, model_run):
     dec = H.ReqDecoder()
     all_queries, case_info = [], []
     steps_checked = 0
+    def finish_case(tree, clients, opres, final, leftovers, rep):
+        # ---- linearizability against the sequential model
+        done = [(k, v) for k, v in opres.items() if v["reply"] is not None]
+        maybe = [(k, v) for k, v in opres.items() if v["reply"] is None and v.get("killed")]
+        keys = [k for k, _ in done]
+        cands = []
+        for r_ in range(len(maybe) + 1):
+            for extra in itertools.combinations([k for k, _ in maybe], r_):
+                ks = keys + list(extra)
+                for perm in itertools.permutations(ks):
+                    okrt = True
+                    pos = {k: i for i, k in enumerate(perm)}
+                    for a in ks:
+                        for b in ks:
+                            ea = opres[a]["end"]
+                            if a != b and ea is not None and ea < opres[b]["start"] and pos[a] > pos[b]:
+                                okrt = False
+                    # program order per client
+                    for a in ks:
+                        for b in ks:
+                            if a[0] == b[0] and a[1] < b[1] and pos[a] > pos[b]:
+                                okrt = False
+                    if okrt:
+                        cands.append(perm)
+                if len(cands) > 400:
+                    break
+        hl_inputs = set(tree.values()) | set(final.values()) | {op["content"] for cl in clients for op in cl if op["kind"] == "put"}
+        hl = sorted(hl_inputs)
+        ht = dict(zip(hl, blake3_hex(hl)))
+        qs = []
+        for perm in cands:
+            stream = H.MAGIC + b"".join(clients[c][oi]["bytes"] for (c, oi) in perm)
+            table, _ = H.walk_stream(stream, dec)
+            qs.append("serve {} {} {} {}".format(hexs(stream), ",".join(f"{hexs(b)}={t}" for b, t in table.items()) or "-",
+                                                ",".join(f"{hexs(c_)}={h_}" for c_, h_ in ht.items()) or "-", H.tree_tok_bytes(tree)))
+        observed = {k: v["reply"] for k, v in done}
+        case_info.append({"first": len(all_queries), "n": len(qs), "perms": cands, "observed": observed, "final": H.tree_tok_hash(final), "rep": rep, "leftovers": leftovers,
+                          "acked": [(k, clients[k[0]][k[1]]) for k, v in done if v["reply"] and v["reply"].startswith("put:1:")]})
+        all_queries += qs
+
     for ci in range(ncases):
         tree = {}
         for _ in range(rng.below(3)):
@@ -197,44 +237,8 @@ def run(pid, tier, seed, rundir, model_run):
                 s.close()
             final = nonstaging(H.hub_tree(root))
             leftovers = [k for k in H.hub_tree(root) if k.endswith(".copia-tmp")]
-        # ---- linearizability against the sequential model
-        done = [(k, v) for k, v in opres.items() if v["reply"] is not None]
-        maybe = [(k, v) for k, v in opres.items() if v["reply"] is None and v.get("killed")]
-        keys = [k for k, _ in done]
-        cands = []
-        for r_ in range(len(maybe) + 1):
-            for extra in itertools.combinations([k for k, _ in maybe], r_):
-                ks = keys + list(extra)
-                for perm in itertools.permutations(ks):
-                    okrt = True
-                    pos = {k: i for i, k in enumerate(perm)}
-                    for a in ks:
-                        for b in ks:
-                            ea = opres[a]["end"]
-                            if a != b and ea is not None and ea < opres[b]["start"] and pos[a] > pos[b]:
-                                okrt = False
-                    # program order per client
-                    for a in ks:
-                        for b in ks:
-                            if a[0] == b[0] and a[1] < b[1] and pos[a] > pos[b]:
-                                okrt = False
-                    if okrt:
-                        cands.append(perm)
-                if len(cands) > 400:
-                    break
-        hl_inputs = set(tree.values()) | set(final.values()) | {op["content"] for cl in clients for op in cl if op["kind"] == "put"}
-        hl = sorted(hl_inputs)
-        ht = dict(zip(hl, blake3_hex(hl)))
-        qs = []
-        for perm in cands:
-            stream = H.MAGIC + b"".join(clients[c][oi]["bytes"] for (c, oi) in perm)
-            table, _ = H.walk_stream(stream, dec)
-            qs.append("serve {} {} {} {}".format(hexs(stream), ",".join(f"{hexs(b)}={t}" for b, t in table.items()) or "-",
-                                                ",".join(f"{hexs(c_)}={h_}" for c_, h_ in ht.items()) or "-", H.tree_tok_bytes(tree)))
-        observed = {k: v["reply"] for k, v in done}
-        case_info.append({"first": len(all_queries), "n": len(qs), "perms": cands, "observed": observed, "final": H.tree_tok_hash(final), "rep": rep, "leftovers": leftovers,
-                          "acked": [(k, clients[k[0]][k[1]]) for k, v in done if v["reply"] and v["reply"].startswith("put:1:")]})
-        all_queries += qs
+        finish_case(tree, clients, opres, final, leftovers, rep)
+        observed = case_info[-1]["observed"]; cands = case_info[-1]["perms"]
         count(f"clients/{nclients}")
         count("ops", sum(len(cl) for cl in clients))
         if len(res["samples"]) < 6:
